@@ -381,9 +381,13 @@ def go_source(pkg, structs, order):
         if need_eq:
             conj = " && ".join("(%s).Eqv(a.%s, b.%s)" % (ref("eq", t, None), fn, fn) for fn, t in inst)
             reg.append("func vRefEq_%s(a, b %s) bool {\n\treturn %s\n}\n" % (rn, S, conj))
+            vec = ", ".join("(%s).Eqv(a.%s, b.%s)" % (ref("eq", t, None), fn, fn) for fn, t in inst)
+            reg.append("func vRefEqVec_%s(a, b %s) []bool {\n\treturn []bool{%s}\n}\n" % (rn, S, vec))
         if "ord" in all_cls:
             body = "".join("\tif o := (%s); !o.Eqv(a.%s, b.%s) {\n\t\treturn o.Less(a.%s, b.%s)\n\t}\n" % (ref("ord", t, None), fn, fn, fn, fn) for fn, t in inst)
             reg.append("func vRefLess_%s(a, b %s) bool {\n%s\treturn false\n}\n" % (rn, S, body))
+            vec = ", ".join("(%s).Less(a.%s, b.%s)" % (ref("ord", t, None), fn, fn) for fn, t in inst)
+            reg.append("func vRefLessVec_%s(a, b %s) []bool {\n\treturn []bool{%s}\n}\n" % (rn, S, vec))
         if "monoid" in all_cls:
             reg.append("func vRefEmpty_%s() %s {\n\treturn %s{%s}\n}\n" % (rn, S, S, ", ".join("%s: (%s).Empty()" % (fn, ref("monoid", t, None)) for fn, t in inst)))
             reg.append("func vRefCombine_%s(a, b %s) %s {\n\treturn %s{%s}\n}\n" % (rn, S, S, S, ", ".join("%s: (%s).Combine(a.%s, b.%s)" % (fn, ref("monoid", t, None), fn, fn) for fn, t in inst)))
@@ -399,8 +403,10 @@ def go_source(pkg, structs, order):
                       "cands: []vCand{%s}" % ", ".join('{"%s", %s, %s}' % (c[0], str(c[1]).lower(), str(c[2]).lower()) for c in cands)]
             if need_eq:
                 fields.append("refEq: vRefEq_%s" % rn)
+                fields.append("refEqVec: vRefEqVec_%s" % rn)
             if cls == "ord":
                 fields.append("refLess: vRefLess_%s" % rn)
+                fields.append("refLessVec: vRefLessVec_%s" % rn)
             if cls == "monoid":
                 fields += ["refEmpty: vRefEmpty_%s" % rn, "refCombine: vRefCombine_%s" % rn]
             inits.append("\tvReg(vD[%s]{%s})" % (S, ", ".join(fields)))
